@@ -34,9 +34,9 @@ mod proofs {
         let f2 = RustFeatures::new(RustTarget(Version::Stable(m2, p2)), e);
         let fnight = RustFeatures::new(RustTarget::nightly(), e);
         macro_rules! chk { ($($f:ident => $min:expr),*) => { $(
-            assert!(!f1.$f || m1 >= $min, concat!("feature enabled before its stabilisation release: ", stringify!($f)));
-            assert!(!f1.$f || f2.$f, concat!("feature not monotone in minor version: ", stringify!($f)));
-            assert!(!f2.$f || fnight.$f, concat!("feature missing on nightly: ", stringify!($f)));
+            assert!(!f1.$f || m1 >= $min, "a feature flag is enabled before its stabilisation release");
+            assert!(!f1.$f || f2.$f, "a feature flag is not monotone in the minor version");
+            assert!(!f2.$f || fnight.$f, "a feature flag of a stable release is missing on nightly");
         )* } }
         table!(chk);
         assert!(!f1.literal_cstr || e >= RustEdition::Edition2021, "C-string literals need edition 2021");
@@ -63,7 +63,7 @@ mod proofs {
         let m: u64 = kani::any();
         let f = RustFeatures::new(RustTarget(Version::Stable(m, kani::any())), RustEdition::Edition2021);
         macro_rules! chk { ($($f:ident => $min:expr),*) => { $(
-            if $min != u64::MAX { assert!(m < $min || f.$f, concat!("stable feature withheld at or after its release: ", stringify!($f))); }
+            if $min != u64::MAX { assert!(m < $min || f.$f, "a stable feature is withheld at or after its release"); }
         )* } }
         table!(chk);
     }
